@@ -391,6 +391,13 @@ class RF:
         o = as_rf(o)
         if self.den == o.den:
             return RF(p_add(self.num, o.num), self.den)
+        # least common denominator when one denominator divides the other (d, d^2, 2a and 4a^2, ...): keeps
+        # sums of quotients over powers of one determinant from growing multiplicatively
+        if not p_is_const(self.den) and not p_is_const(o.den):
+            big, small = (self, o) if len(self.den) >= len(o.den) else (o, self)
+            q = p_divexact(big.den, small.den)
+            if q is not None and q:
+                return RF(p_add(big.num, p_mul(small.num, q)), big.den)
         return RF(p_add(p_mul(self.num, o.den), p_mul(o.num, self.den)), p_mul(self.den, o.den))
 
     __radd__ = __add__
@@ -582,6 +589,9 @@ def fn_sqrt(x):
             if isqrt(n) ** 2 == n and isqrt(d) ** 2 == d:
                 return RF.const(Fraction(isqrt(n), isqrt(d)))
     if not x.is_poly():
+        if len(x.num) * len(x.den) > 2_000_000:
+            # too large to rationalise: sqrt(n/d) = sqrt(n)/sqrt(d) (both radicands polynomial; squares still rewrite)
+            return fn_sqrt(RF(x.num)) / fn_sqrt(RF(x.den))
         # sqrt(n/d) = sqrt(n*d)/d
         nd = RF(p_mul(x.num, x.den))
         return fn_sqrt(nd) / RF(x.den)
